@@ -82,7 +82,9 @@ func buildBlockStatements(closureContext *parser.ClosureContext) []core_domain.C
 			argumentsContext := pathExpression.GetChild(1).(*parser.PathElementContext).GetChild(0).(*parser.ArgumentsContext)
 			argListCtx := argumentsContext.GetChild(1).(*parser.EnhancedArgumentListContext)
 			for _, argElement := range argListCtx.AllEnhancedArgumentListElement() {
-				result = ConvertToJDep(argElement.GetText())
+				if text, ok := stringLiteralText(argElement); ok {
+					result = ConvertToJDep(text)
+				}
 			}
 		}
 
@@ -101,19 +103,29 @@ func buildBlockStatements(closureContext *parser.ClosureContext) []core_domain.C
 	return results
 }
 
+// stringLiteralText returns the source text of tree when tree is nothing but a string literal.
+// Any other dependency notation (project(':x'), fileTree(...), group: 'g', libs.x) is not one.
+func stringLiteralText(tree antlr.Tree) (string, bool) {
+	for tree != nil {
+		if literal, ok := tree.(*parser.StringLiteralContext); ok {
+			return literal.GetText(), true
+		}
+		if tree.GetChildCount() != 1 {
+			return "", false
+		}
+		tree = tree.GetChild(0)
+	}
+	return "", false
+}
+
 func BuildDependency(argumentListContext *parser.ArgumentListContext) *core_domain.CodeDependency {
 	var result *core_domain.CodeDependency = nil
 	for _, arg := range argumentListContext.AllArgumentListElement() {
 		if reflect.TypeOf(arg.(*parser.ArgumentListElementContext).GetChild(0)).String() == "*parser.ExpressionListElementContext" {
 			listElementContext := arg.(*parser.ArgumentListElementContext).GetChild(0).(*parser.ExpressionListElementContext)
-			literalPrmrAltContext := listElementContext.
-				GetChild(0).
-				GetChild(0).
-				GetChild(0).
-				GetChild(0).(*parser.LiteralPrmrAltContext)
-
-			resultStr := literalPrmrAltContext.Literal().GetChild(0).(*parser.StringLiteralContext).StringLiteral().GetText()
-			result = ConvertToJDep(resultStr)
+			if resultStr, ok := stringLiteralText(listElementContext); ok {
+				result = ConvertToJDep(resultStr)
+			}
 		}
 	}
 	return result
